@@ -459,6 +459,7 @@ func (i *interpreter) startPath(w workItem) {
 	i.tainted = false
 	i.vcwd = ""
 	i.egErr = nil
+	i.goOrder, i.goPending = nil, nil
 	i.mapRangers = nil
 	i.recordRangers = false
 	i.bigOrder = -1
